@@ -289,7 +289,9 @@ def check(ctx):
             except Undecided as e:
                 raise AnalysisError(f"{ACC} on real bytes (raw {raw}, unit {unit}): {e}")
             n8 += 1
-            ctx.ob("R8", f"{ACC}::presents::{unit}::raw={raw}", isinstance(shown, float) and shown == want,
+            import math as _m
+            # the statement's formula over the reals: a last-place difference (x * 0.1 for x / 10) is not a different temperature
+            ctx.ob("R8", f"{ACC}::presents::{unit}::raw={raw}", isinstance(shown, float) and _m.isclose(shown, want, rel_tol=1e-12, abs_tol=1e-12),
                    f"{ACC} presents the stored word {raw} (unit {unit}) as {shown!r}, expected {want!r} = {'raw/18' if unit == 'C' else '(raw+320)/10'}", repo.own_method(ACC, "_get_value").loc,
                    sample={"rule": "R8", "raw": raw, "unit": unit, "presented": str(shown)} if raw in (670, 40000) else None)
             ctx.ob("R8", f"{ACC}::writes-back::{unit}::raw={raw}", [w[-1] for w in writes] == [raw, raw] and all(w[:2] == (15, 2) for w in writes),
